@@ -36,7 +36,8 @@ MANIFEST = {
              "to 2^-29 day, which itself is known on the grids only; in the IDEAL instance the constructor is proved exact for every real JDE in [-0.5, 5399999.5) (Epoch(j) stores j; "
              "hence (e+x)-e = x exactly), by symbolic evaluation over an abstract day number + a Z round-trip sweep. "
              "Bit-exact correspondence model vs implementation every run; boundary-heavy search oracle of every clause "
-             "covers the gap between the grids and 'any instant'."),
+             "covers the gap between the grids and 'any instant', and runs call sequences on one object (every view after every mutator "
+             "equals that of a fresh Epoch with the same JDE: stale memoised values)."),
     "technique": ("kernel computation over the full day range + grids (vm_compute reflection), lia/induction on the calendar "
                   "spec, Flocq reasoning about binary64 rounding (B64Verified) for the all-floats field ranges, symbolic "
                   "evaluation of the generated text valid for every FloatOps instance, differential correspondence, "
@@ -65,6 +66,7 @@ CLAUSES = {
     "IDEAL instance: Epoch(j) and e.set(j) store exactly j; e +/- x, x + e, += , -= hold exactly jde +/- x": "proved [ideal, EVERY real j with -0.5 <= j < 5399999.5 (day numbers 0..5399999): symbolic evaluation of the regenerated get_date/_compute_jde/set over an abstract day number + exact recombination of the day fraction + integer decode/encode round trip for every day number by kernel computation over Z (16 shards); C02_ctor_exact_ideal, C02_arith_exact_ideal]; says nothing about binary64 rounding",
     "Epoch +/- x": "REDUCED to the constructor call Epoch(jde +/- x) [every FloatOps instance, symbolic]. Epoch(a) does NOT store a exactly in binary64 (set() re-derives the JDE from the broken-down date; Epoch(4193243.6725671566).jde() = 4193243.672567157): how close it stays is known on the grids only",
     "(e + x) - e = x and e - (e - x) = x to 1e-8 day": "proved for EVERY finite float jde in [0,5.4e6] and |x| <= 1e6 [B64 + Flocq half-ulp bounds, C02_arith_every_float] UNDER THE PREMISE that the constructor call Epoch(fl(jde +/- x)) stores its argument to within 2^-29 = 1.86e-9 day (attained: C02_ctor_within_attained; checked to 1e-8 on the grids; NOT proved for arbitrary floats: needs get_date/_compute_jde for an abstract day number); unconditional on the GRID [B64, 175 years x 12 month starts x 3 fractions x 16 offsets]; ideal instance: not proved; elsewhere searched",
+    "call sequences on ONE Epoch object: after every mutator (set() in every input form incl. tuple/list/datetime/date/month name/another Epoch/utc=True/leap_seconds=, +=, -=, e = e + x, x + e) every view (jde, mjd, get_date, get_full_date also with utc=True / leap_seconds=, year, dow, doy, leap, julian, sidereal times, rise_set, str, repr, hash, the six comparisons, e - Epoch) equals the view of a freshly constructed Epoch with the same JDE, bit for bit": "searched only (key sequence-stale-view; 16 mutator forms x 30 views deterministic + random 2-5 step sequences; aimed at a memoised derived value that one mutator forgets to invalidate; the Coq model is purely functional over the single field _jde, so a new cached attribute also breaks stage G/P)",
     "__hash__": "unproved: not translated (hash of a float); not searched",
 }
 
@@ -381,6 +383,151 @@ def check_order(Epoch, F, a, b):
     F.nontriv += 1
 
 
+# ---------------------------------------------------------------------------------------------
+# call sequences on ONE Epoch object: after every mutator every view equals the view of a freshly
+# constructed Epoch with the same JDE (bit for bit) -- catches a derived value memoised in an
+# attribute and not invalidated by one of the mutators / input forms
+SEQ_VIEWS = [
+    ("jde", "e.jde()"), ("mjd", "e.mjd()"), ("call", "e()"), ("float", "float(e)"), ("int", "int(e)"),
+    ("get_date", "e.get_date()"), ("get_full_date", "e.get_full_date()"),
+    ("get_date-utc", "e.get_date(utc=True)"), ("get_full_date-utc", "e.get_full_date(utc=True)"),
+    ("get_date-leap_seconds", "e.get_date(leap_seconds=35.0)"),
+    ("get_full_date-leap_seconds", "e.get_full_date(leap_seconds=35.0)"),
+    ("year", "e.year()"), ("dow", "e.dow()"), ("dow-string", "e.dow(as_string=True)"), ("doy", "e.doy()"),
+    ("leap", "e.leap()"), ("julian", "e.julian()"),
+    ("mean_sidereal_time", "e.mean_sidereal_time()"),
+    ("apparent_sidereal_time", "e.apparent_sidereal_time(23.44357, -3.788 / 3600.0)"),
+    ("rise_set", "e.rise_set(40.0, 15.0)"),
+    ("str", "str(e)"), ("repr", "repr(e)"), ("hash", "hash(e)"),
+    ("lt", "e < REF"), ("le", "e <= REF"), ("eq", "e == REF"), ("ne", "e != REF"), ("gt", "e > REF"), ("ge", "e >= REF"),
+    ("sub-epoch", "e - REF"),
+]
+
+
+def seq_norm(v):
+    """comparable, bit-exact image of a view result"""
+    cn = type(v).__name__
+    if cn == "Epoch": return ("Epoch", seq_norm(v.jde()))
+    if cn == "Angle": return ("Angle", seq_norm(float(v)))
+    if isinstance(v, float): return ("f", v.hex() if v == v else "nan")
+    if isinstance(v, (tuple, list)): return (cn,) + tuple(seq_norm(x) for x in v)
+    return v
+
+
+def seq_views(env):
+    out = {}
+    for name, expr in SEQ_VIEWS:
+        try:
+            out[name] = seq_norm(eval(expr, env))
+        except Exception as ex:
+            out[name] = ("raises", type(ex).__name__)
+    return out
+
+
+def seq_mutator(rng):
+    """one mutator as a Python statement on the variable e"""
+    if rng.random() < 0.6:
+        y = rng.choice([1972, 1987, 1999, 2000, 2012, 2016, 2017, 2024, 2030, 1582, 1900, -500, 333])
+    else:
+        y = rng.randint(-4712, 9999)
+    m = rng.randint(1, 12)
+    d = rng.randint(1, R.mlen(y, m))
+    if y == 1582 and m == 10 and 5 <= d <= 14: d = 15
+    h, mi, si, us = rand_time(rng)
+    sec = si + us / 1e6
+    six = "%d, %d, %d, %d, %d, %r" % (y, m, d, h, mi, sec)
+    x = rng.choice([1, -1, 0.5, -0.25, 7, 365.25, 1 / 86400, rng.uniform(-1000, 1000), rng.randint(-500, 500)])
+    jd = rng.choice([2451545.0, 2299160.5, 2441317.5, rng.uniform(0, JMAX), float(rng.randint(0, 5399999)) + 0.5])
+    forms = ["e.set(%d, %d, %d)" % (y, m, d), "e.set(%d, %d, %r)" % (y, m, d + rng.random()), "e.set(%s)" % six,
+             "e.set((%s))" % six, "e.set([%s])" % six, "e.set((%d, %d, %d))" % (y, m, d), "e.set([%d, %d, %r])" % (y, m, d + 0.25),
+             "e.set(%d, %r, %d)" % (y, rng.choice([NAMES[m - 1], LONG[m - 1], LONG[m - 1].upper()]), d),
+             "e.set(Epoch(%s))" % six, "e.set(Epoch(%r))" % jd, "e.set(%r)" % jd, "e.set(%d)" % int(jd),
+             "e.set(%d, %d, %d, utc=True)" % (y, m, d), "e.set(%s, utc=True)" % six,
+             "e.set(%s, leap_seconds=30.0)" % six, "e.set((%s), utc=True)" % six, "e.set()",
+             "e += %r" % x, "e -= %r" % x, "e = e + %r" % x, "e = e - %r" % x, "e = %r + e" % x]
+    if pydate_ok(y, m, d):
+        forms += ["e.set(datetime.datetime(%d, %d, %d, %d, %d, %d, %d))" % (y, m, d, h, mi, si, us),
+                  "e.set(datetime.date(%d, %d, %d))" % (y, m, d),
+                  "e.set(datetime.datetime(%d, %d, %d, %d, %d, %d), utc=True)" % (y, m, d, h, mi, si)]
+    return rng.choice(forms)
+
+
+def check_sequence(Epoch, F, start, steps):
+    """steps: list of ('view', expr) / ('mut', stmt) run on one object created by `start`"""
+    env = {"Epoch": Epoch, "datetime": datetime, "REF": Epoch(2451545.0)}
+    prefix = ["e = %s" % start]
+    try:
+        exec(prefix[0], env)
+    except Exception:
+        return
+    F.n += 1
+    for kind, src in steps:
+        if kind == "view":
+            try: eval(src, env)
+            except Exception: pass
+            prefix.append(src)
+            continue
+        try:
+            exec(src, env)
+        except Exception:
+            prefix.append("# %s raised" % src)
+            break        # a refused input: nothing to compare (refusals are other clauses)
+        prefix.append(src)
+        e = env["e"]
+        if type(e).__name__ != "Epoch":
+            F.add("sequence-not-an-epoch", "after `%s` the object is a %s" % ("; ".join(prefix), type(e).__name__),
+                  prefix, "exec(%r)" % "; ".join(prefix))
+            return
+        j = e.jde()
+        if not (-1.0 <= j <= JMAX + 1.0e6): break
+        F.n += 1
+        fresh = Epoch(j)
+        how = "Epoch(%r)" % j
+        if fresh.jde() != j:                      # Epoch(j) re-derives the JDE (1 ulp off for 0.2%% of floats)
+            fresh = Epoch(); fresh._jde = j
+            how = "Epoch() with _jde = %r" % j
+        got = seq_views(env)
+        want = seq_views({"Epoch": Epoch, "datetime": datetime, "REF": env["REF"], "e": fresh})
+        for name, expr in SEQ_VIEWS:
+            if got[name] != want[name]:
+                code = "; ".join(x for x in prefix if not x.startswith("#"))
+                F.add("sequence-stale-view",
+                      "after `%s` the view %s gives %r, a fresh %s gives %r" % (code, expr, got[name], how, want[name]),
+                      prefix, "(lambda ns: (exec(%r, ns), eval(%r, ns), eval(%r, dict(ns, e=ns['Epoch'](ns['e'].jde()))))[1:])({'Epoch': Epoch, 'datetime': datetime, 'REF': Epoch(2451545.0)})"
+                      % (code, expr, expr))
+                return
+        if e.jde() != j and not (e.jde() != e.jde()):
+            F.add("sequence-view-mutates", "the views changed the JDE of the object from %r to %r after `%s`" % (j, e.jde(), "; ".join(prefix)),
+                  prefix, "exec(%r)" % "; ".join(prefix))
+            return
+        F.nontriv += 1
+
+
+def search_sequences(Epoch, F, rng, n_random):
+    views = [v for _, v in SEQ_VIEWS]
+    # deterministic: view -> mutator -> (all views), for every view that could be memoised and the main input forms
+    muts = ["e.set((1987, 6, 19.5))", "e.set([1987, 6, 19, 12, 30, 15.5])", "e.set(Epoch(2446966.25))", "e.set(1987, 6, 19.5)",
+            "e.set(2446966.25)", "e.set(datetime.datetime(1987, 6, 19, 12, 30, 15))", "e.set(datetime.date(1987, 6, 19))",
+            "e.set(1987, 'June', 19.5)", "e.set(1987, 6, 19.5, utc=True)", "e.set(1987, 6, 19, 12, 0, 0.0, leap_seconds=30.0)",
+            "e.set((2016, 12, 31, 23, 59, 59.5), utc=True)", "e.set()", "e += 1.5", "e -= 1.5", "e = e + 1.5", "e = 2 + e"]
+    for mu in muts:
+        for v in views:
+            check_sequence(Epoch, F, "Epoch(2000, 1, 1.5)", [("view", v), ("mut", mu)])
+        check_sequence(Epoch, F, "Epoch(2017, 1, 1, 0, 0, 10.0, utc=True)",
+                       [("view", v) for v in views] + [("mut", mu), ("view", "e.get_date(utc=True)"), ("mut", "e.set((1999, 1, 1.0))")])
+    # random sequences of 2-5 steps
+    for _ in range(n_random):
+        y, m, d = rand_date(rng)
+        start = rng.choice(["Epoch(%d, %d, %d)" % (y, m, d), "Epoch(%r)" % rng.uniform(0, JMAX), "Epoch(2451545.0)",
+                            "Epoch(%d, %d, %d, utc=True)" % (rng.randint(1972, 2030), m, min(d, 28)), "Epoch()"])
+        steps = []
+        for _k in range(rng.randint(2, 5)):
+            if rng.random() < 0.5: steps.append(("view", rng.choice(views)))
+            else: steps.append(("mut", seq_mutator(rng)))
+        if not any(k == "mut" for k, _ in steps): steps.append(("mut", seq_mutator(rng)))
+        check_sequence(Epoch, F, start, steps)
+
+
 def search(rng, tier, deep):
     mods = load(["Epoch"])
     Epoch = mods["Epoch"].Epoch
@@ -416,11 +563,14 @@ def search(rng, tier, deep):
         a = rng.choice(js)
         b = rng.choice([a, nxt(a), nxt(a, -1), a + 3e-9, a - 3e-9, a + 1.0, rng.choice(js), rng.uniform(0, JMAX)])
         if 0 <= b <= JMAX: check_order(Epoch, F, a, b)
+    # (e) call sequences on one object (memoised views must be invalidated by every mutator)
+    search_sequences(Epoch, F, rng, 3000 if big else 300)
     stats = {"evaluations": F.n, "distinct_nontrivial": F.nontriv,
              "rule": ("JDE probes at +-{0,1,2 ulp,1e-9,1e-6,0.5 s,1 s,1e-3} around day/month/year boundaries of %d years, the 1582 reform, "
                       "random JDE in [0,5.4e6]; each: field ranges/types, date = civil date of the day, JDE->fields->JDE <= 1e-8, "
                       "Epoch(x).jde() <= 1e-9, date tuple non-decreasing over sorted probes; every constructor signature incl. month names, "
-                      "set(), check_input_date <= 1e-9; offsets |x| <= 1e6 incl. +=, -=, x + e; random/adjacent pairs for the six comparisons"
+                      "set(), check_input_date <= 1e-9; offsets |x| <= 1e6 incl. +=, -=, x + e; random/adjacent pairs for the six comparisons; call sequences on ONE object "
+                      "(view -> mutator -> all 30 views vs a fresh Epoch of the same JDE, bit for bit; 16 mutator forms x 30 views deterministic + random 2-5 step sequences)"
                       % (len(SPECIAL_YEARS) + (150 if big else 25))),
              "samples": [{"input": 2299160.4999999995, "checked": "1582-10-04 23:59:59.99996, rebuilt JDE within 1e-8, next float is 1582-10-15 0h"}],
              "exhaustive_search": False}
